@@ -85,6 +85,30 @@ func treeInvocation(r *rand.Rand, root *drive.Cmd, version bool, mutateP int) (a
 		} else {
 			seg = gen.Sentence(r, lp, gen.Cfg{})
 		}
+		if r.Intn(4) == 0 && len(seg) > 0 {
+			// a value or positional spelled like a command that is NOT a subcommand of this level (an ancestor's
+			// sibling, a grandchild, the command itself): it is ordinary data here
+			var foreign []string
+			var walk func(t *drive.Cmd)
+			walk = func(t *drive.Cmd) {
+				if t.Parent != cur {
+					foreign = append(foreign, t.Aliases...)
+				}
+				for _, k := range t.Kids {
+					walk(k)
+				}
+			}
+			walk(root)
+			var cand []int
+			for i, tok := range seg {
+				if !strings.HasPrefix(tok, "-") && (i == 0 || !strings.HasPrefix(seg[i-1], "-") || strings.Contains(seg[i-1], "=")) {
+					cand = append(cand, i)
+				}
+			}
+			if len(cand) > 0 && len(foreign) > 0 {
+				seg[cand[r.Intn(len(cand))]] = foreign[r.Intn(len(foreign))]
+			}
+		}
 		ok := true
 		for _, tok := range seg {
 			if isAliasOfKid(cur, tok) != nil {
